@@ -76,6 +76,21 @@ DEFINED = {
 }
 
 
+def _small(t, limit=40):
+    """is the term DAG smaller than `limit` nodes?"""
+    seen, stack = set(), [t]
+    while stack:
+        y = stack.pop()
+        i = y.get_id()
+        if i in seen:
+            continue
+        seen.add(i)
+        if len(seen) > limit:
+            return False
+        stack.extend(y.children())
+    return True
+
+
 def apply(ctx, name, x, axioms=True):
     if name in DEFINED:
         return DEFINED[name](ctx, x)
@@ -87,18 +102,22 @@ def apply(ctx, name, x, axioms=True):
             ctx.ghost[key] = x
             for label, a in _axioms_for(name, x, fx):
                 ctx.add_axiom(a, label)
-            # pairwise axioms with earlier applications of the same / inverse function
+            # pairwise axioms with earlier applications of the same / inverse function -- only between small arguments
+            # and a bounded number of them (large polynomial arguments would make every later query expensive and
+            # are never related by monotonicity in the contracts)
             apps = ctx.ghost.setdefault(("apps", name), [])
-            for y in apps:
+            small = _small(x)
+            for y in (apps[-8:] if small else []):
                 fy = f(y)
                 if name in ("exp", "log", "sqrt", "sigmoid", "softplus", "tanh", "Phi", "erf"):
                     dom = z3.And(x > 0, y > 0) if name == "log" else (z3.And(x >= 0, y >= 0) if name == "sqrt" else z3.BoolVal(True))
                     ctx.add_axiom(z3.Implies(dom, z3.And(z3.Implies(x < y, fx < fy), z3.Implies(x == y, fx == fy), z3.Implies(x > y, fx > fy))),
                                   f"{name} is strictly increasing")
-            apps.append(x)
+            if small:
+                apps.append(x)
             inv = {"exp": "log", "log": "exp"}.get(name)
-            if inv:
-                for y in ctx.ghost.get(("apps", inv), []):
+            if inv and small:
+                for y in ctx.ghost.get(("apps", inv), [])[-8:]:
                     # y is an argument of inv: inv(y) occurs.  if x == inv(y) then name(x) == y
                     g = fn(inv)
                     if name == "exp":
